@@ -569,8 +569,9 @@ func init() {
 			c.R.Rule = "for every opcode with a data access x pointer placement x flag nibble: before each machine cycle the harness stores a marker at every address the instruction reads, the distinguishing marker only before the documented read cycle, so the registers/flags at the boundary identify the cycle of the read; every write target is read back after every cycle so the first cycle at which it holds the written value identifies the cycle of the write; the documented cycles come from the reference interpreter's access list; writes are additionally observed through DIV (any write clears it), so a write of the value already present also has to appear in its documented cycle; the same measurement with a predecessor instruction executed first and the CPU not re-seeded in between"
 			c.R.Assumptions = []string{"operand-byte fetch cycles and the pushes of interrupt dispatch are outside the statement", "addressed locations are memory-like (WRAM, echo, HRAM, VRAM/OAM with the LCD off)"}
 		}
-		ptrs := []uint16{0xc100, 0xdfc0, 0xe100, 0xfd80, 0xff80, 0xffa0, 0x8100, 0xfe10}
-		explore.Product(c.R, "access-cycles", explore.PartOpt{Bound: "single instruction, every machine cycle observed", Domain: "every memory-accessing opcode x 8 pointer placements x 16 flag nibbles"},
+		ptrs := []uint16{0xc100, 0xdfc0, 0xe100, 0xfd80, 0xff80, 0xffa0, 0x8100, 0xfe10,
+			0xc0df, 0xc0f7, 0xc0ff, 0xc0fb, 0xc0ef} // nn / HL / BC / DE / SP with low byte FF: two-byte accesses cross a page
+		explore.Product(c.R, "access-cycles", explore.PartOpt{Bound: "single instruction, every machine cycle observed", Domain: "every memory-accessing opcode x 13 pointer placements (5 of them putting nn, HL, BC, DE or SP on the last byte of a page) x 16 flag nibbles"},
 			func(yield func(c03Case) bool) {
 				for op := 0; op < 512; op++ {
 					if op < 256 && (ref.UndefinedOpcodes[uint8(op)] || op == 0xcb) {
